@@ -27,7 +27,7 @@ def finding_key(f, rec_panic=None):
 
 def select_templates(prop, tier):
     ts = catalog.QUICK if tier == 'quick' else catalog.QUICK + catalog.THOROUGH
-    def is_rw(t): return any(op[0] in ('ematch', 'rewrite') for op in t.ops)
+    def is_rw(t): return any(op[0] in ('ematch', 'mmatch', 'rewrite') for op in t.ops)
     def is_ex(t): return any(op[0] == 'extract' for op in t.ops)
     if prop == 'C06': return [t for t in ts if is_ex(t)]
     if prop == 'C14': return [t for t in ts if t.analysis != '()']
